@@ -168,6 +168,9 @@ func (p *PortMod) MarshalBinary() (data []byte, err error) {
 }
 
 func (p *PortMod) UnmarshalBinary(data []byte) error {
+	if len(data) < 40 {
+		return errors.New("the []byte is too short to unmarshal a full PortMod message")
+	}
 	err := p.Header.UnmarshalBinary(data)
 	n := int(p.Header.Len())
 
@@ -175,8 +178,9 @@ func (p *PortMod) UnmarshalBinary(data []byte) error {
 	n += 4
 	copy(p.pad, data[n:n+4])
 	n += 4
-	copy(p.HWAddr, data[n:])
-	n += len(p.HWAddr)
+	p.HWAddr = make([]byte, ETH_ALEN)
+	copy(p.HWAddr, data[n:n+ETH_ALEN])
+	n += ETH_ALEN
 	copy(p.pad2, data[n:n+2])
 	n += 2
 	p.Config = binary.BigEndian.Uint32(data[n:])
